@@ -31,7 +31,7 @@ ClLess(x, y) == TcLess(Expand(x), Expand(y))
 
 VARIABLES pc, S, order, trie, min
 vars == <<pc, S, order, trie, min>>
-NoG == [n |-> 1, es |-> <<>>, fin |-> {}, init |-> 0]
+NoG == [n |-> 1, es |-> <<>>, fin |-> {}, alpha |-> {}, init |-> 0]
 
 Init == pc = "input" /\ S = {} /\ order = <<>> /\ trie = NoG /\ min = NoG
 DoChoose == /\ pc = "input"
